@@ -28,6 +28,11 @@ CLAIMS = {
    text="Data-race freedom of concurrent queries follows structurally if no instruction reachable from a query writes memory that existed before the query or package-level memory: then every location shared between two queries is read-only and every written location is confined to one goroutine. The check decides exactly that (engine E3 over every write site, global/decoder state rules), and that no goroutine is spawned and no select is used. Equality with the sequential result is then C03's determinism clause (checked under C03).",
    note="Races inside hcl/cty on shared AST nodes are assumed absent (read-only accessors); user callbacks out of scope; the memory-model argument is stated in DESIGN.md, not mechanised.",
    ref="DESIGN.md §2 E3, §3 C05"),
+ "C06": dict(
+   technique="static analysis: typestate of the IsComplete flag along CFG paths from limit/hook tests, counter-discipline check of the candidate limit, placeholder threading by data-derivation and linear arithmetic on tab-stop numbers, NewText/Snippet separation by data-derivation",
+   text="Structural necessary conditions of C06 decided statically: (a) after a candidate-limit test fires, every return carries IsComplete == false; (a2) with completion hooks registered, every return of value completion is incomplete; (b) the value compared with maxCandidates is a dedicated counter initialised to len(list)/0-on-empty, advanced after every single append, re-initialised after bulk appends, and appends are dominated by the test; (c) no NewText of a TextEdit/CompletionData literal derives from snippet text; (d) every CompletionData literal returns the nested data's NextPlaceholder or counter+number-of-tab-stops, and nested data is requested with the threaded counter.",
+   note="Does not decide: that the edit range starts at/before and reaches the cursor (position values; partially covered under C02), numbering inside non-constant formats, the exact bound value, behaviour of user hooks.",
+   ref="DESIGN.md §3 C06, Appendix A"),
 }
 NA = {}
 ALL = ["C%02d" % i for i in range(1, 21)]
